@@ -63,6 +63,7 @@ def run_case(mod_name, case, tier, seed, validate_n):
                samples=[], notes=[], cut_what={}, classes={})
     qt = 10000 if tier == 'quick' else 60000
     ctx = Ctx('sym', qtimeout_ms=qt, max_paths=getattr(mod, 'MAX_PATHS', {}).get(tier, 20000))
+    ctx.max_seconds = getattr(mod, 'CASE_SECONDS', {}).get(tier, 240 if tier == 'quick' else 2400)
     fn = lambda: mod.harness(dict(case), tier)
     path_models = []
 
@@ -108,7 +109,10 @@ def run_case(mod_name, case, tier, seed, validate_n):
     for label, vs in sorted(seen.items()):
         reproduced = None
         tried = []
-        for v in vs[:4]:
+        for v in sorted(vs, key=lambda v: not getattr(v, 'small', True))[:4]:
+            if not getattr(v, 'small', True):
+                tried.append('only counterexamples with sizes too large to replay')
+                continue
             ok, why = replay(mod, case, tier, v.inputs, label)
             tried.append(why)
             if ok:
